@@ -629,6 +629,7 @@ CF = 'sedfitter/convolved_fluxes/convolved_fluxes.py'
 VA = 'sedfitter/utils/validator.py'
 SE = 'sedfitter/sed/sed.py'
 MUST_FIRE = [
+    ('round 12 twin: the refusal tested on the count of too-LARGE requests', [(CF, "            if np.any(c.apertures < self.apertures.min()):\n                raise Exception(\"Aperture(s) requested too small\")", "            if np.flatnonzero(c.apertures > self.apertures.min()).size > 0:\n                raise Exception(\"Aperture(s) requested too small\")")]),
     ('single-aperture SED repeated along the first axis, then reshaped (not a transpose): scrambled for two or more requests', [(SE, 'return np.repeat(self.flux[0, :], len(apertures)).reshape(self.n_wav, len(apertures))', 'return np.repeat(self.flux[0:1, :], len(apertures), axis=0).reshape(self.n_wav, len(apertures))')]),
     ('apertures setter demands increasing values: a request in another order is refused', [(CF, "self._apertures = validate_array('apertures', value, domain='positive', ndim=1, physical_type='length')", "self._apertures = validate_array('apertures', value, domain='increasing', ndim=1, physical_type='length')"),
         (VA, "            raise ValueError(\"{0} has incorrect shape (expected {1} but found {2})\".format(name, expected_shape, actual_shape))\n\n    return value", "            raise ValueError(\"{0} has incorrect shape (expected {1} but found {2})\".format(name, expected_shape, actual_shape))\n\n    if domain == 'increasing':\n        if np.any(np.diff(value) <= 0.):\n            raise ValueError(\"{0} should be strictly increasing\".format(name))\n\n    return value")]),
@@ -667,6 +668,9 @@ MUST_FIRE = [
                                                "        if np.any(apertures < sed_apertures.min()):\n            raise Exception(\"Aperture(s) requested too small\")\n\n        result = flux_interp(apertures)\n        apertures[apertures > sed_apertures.max()] = sed_apertures.max()\n        return result")]),
 ]
 MUST_SILENT = [
+    ('round 12: positions of the too-large requests found once, clamped only when there are any; the refusal tested on the count of too-small ones', [(CF, "            if np.any(c.apertures > self.apertures.max()):\n                apertures[c.apertures > self.apertures.max()] = self.apertures.max()\n",
+      "            too_large = np.flatnonzero(c.apertures > self.apertures.max())\n            if too_large.size > 0:\n                apertures[too_large] = self.apertures.max()\n"),
+      (CF, "            if np.any(c.apertures < self.apertures.min()):\n                raise Exception(\"Aperture(s) requested too small\")", "            if np.flatnonzero(c.apertures < self.apertures.min()).size > 0:\n                raise Exception(\"Aperture(s) requested too small\")")]),
     ('single-aperture SED repeated along a new last axis', [(SE, 'return np.repeat(self.flux[0, :], len(apertures)).reshape(self.n_wav, len(apertures))', 'return np.repeat(self.flux[0, :, np.newaxis], len(apertures), axis=1)')]),
     ('validate_array enforces the positive domain it was always passed', [(VA, "            raise ValueError(\"{0} has incorrect shape (expected {1} but found {2})\".format(name, expected_shape, actual_shape))\n\n    return value", "            raise ValueError(\"{0} has incorrect shape (expected {1} but found {2})\".format(name, expected_shape, actual_shape))\n\n    if domain == 'positive':\n        if np.any(value < 0.):\n            raise ValueError(\"{0} should be positive\".format(name))\n\n    return value")]),
     ('SED look-up by searchsorted, the first aperture taken with the first segment', [(SE, '        # Create interpolating function\n        flux_interp = interp1d(sed_apertures, self.flux.swapaxes(0, 1))\n\n        # If any apertures are larger than the defined max, reset to max\n        apertures[apertures > sed_apertures.max()] = sed_apertures.max()\n\n        # If any apertures are smaller than the defined min, raise Exception\n        if np.any(apertures < sed_apertures.min()):\n            raise Exception("Aperture(s) requested too small")\n\n        return flux_interp(apertures)\n', '        # If any apertures are larger than the defined max, reset to max\n        apertures[apertures > sed_apertures.max()] = sed_apertures.max()\n\n        # If any apertures are smaller than the defined min, raise Exception\n        if np.any(apertures < sed_apertures.min()):\n            raise Exception("Aperture(s) requested too small")\n\n        # segment of the table each request falls in, then the chord of that segment\n        values = self.flux.value\n        upper = np.searchsorted(sed_apertures, apertures)\n        upper = np.maximum(upper, 1)\n        lower = upper - 1\n        frac = (apertures - sed_apertures[lower]) / (sed_apertures[upper] - sed_apertures[lower])\n        return (values[lower, :] + (values[upper, :] - values[lower, :]) * frac[:, np.newaxis]).transpose()\n')]),
